@@ -298,11 +298,104 @@ Proof.
   unfold c02_time_sensitive_density_estimator_TimeSensitiveDensityEstimator__set_log_density_func in H.
   cbn [bind bind2] in H. rewrite predictor_landmarks_spec in H. cbn [bind] in H.
   inv_step H. inv_step H. inv_step H. injection H as <-.
-  exists v, v0. split; [|split; assumption].
+  exists a, a0. split; [|split; [reflexivity|assumption]].
   apply (consistent_from_parts _ _ _ _ _ _ _ _ _ _ _ _ _ _ _ _ _ rank chk HLp HL).
   destruct g; cbn [is_full] in *;
     first [ apply (compute_conditional_times_spec n d xd None) in E; exact E
           | apply (compute_conditional_times_spec n d xd lm) in E; exact E ].
 Qed.
+
+(* ------------------------------------------------------------------ the property clause *)
+(* dispatch_matches_factor: whenever the Cholesky-latent family is built, the resolved type is sparse_cholesky or
+   fixed, the predictor's inducing points are the estimator's landmarks, the latent vector has one entry per
+   landmark, the factor handed to the predictor (slot "L") is  _full_rank(<those landmarks>, cov, 0, jitter), and it
+   is the very factor with which the latent factor  L = _standard_low_rank(x, cov, <those landmarks>, Lp = it)
+   was computed - the hypotheses of C02_chol_insample_exact.
+   Historical witnesses (both FALSE on the pinned tree, repaired by two fix commits):
+     * 8a478b7: DensityEstimator(landmarks=<40 arbitrary points>).fit(<40 cells>): type FULL, yet the predictor was
+       LandmarksConditionalCholesky(xu = landmarks, L = _full_rank(x ...)): here the FULL case of
+       predictor_consistent (predictor on x) fails - reverting _predictor_landmarks breaks density_predictor_consistent;
+     * 4ef1c81: sparse_nystroem, 5 tight clusters on 5 landmarks, rank = 0.99 so that all 5 directions are retained:
+       LandmarksConditionalCholesky(xu = landmarks, L = None): the SPARSE_NYSTROEM case (DTC predictor whatever pz)
+       fails - dropping `Lp is not None` from the dispatchers breaks compute_conditional*_spec. *)
+Theorem dispatch_matches_factor cf cc cd ylink x lm cov jit g y z pz Lp L p nobs :
+  cf <> cc -> cd <> cc ->
+  predictor_consistent cf cc cd ylink x lm cov jit g y z pz Lp L p nobs ->
+  obj_class p = Some cc ->
+  exists m dd ld, lm = Some (m, dd, ld) /\ (g = SPARSE_CHOLESKY \/ g = FIXED) /\ pz = m /\ Lp <> VNone
+    /\ chol_pred cc p (lm_val lm) z Lp nobs
+    /\ oracle "_full_rank" [lm_val lm; cov; VInt 0; jit] = Ok Lp
+    /\ oracle "_standard_low_rank" [x; cov; lm_val lm; Lp; VInt 0; jit] = Ok L.
+Proof.
+  intros Hfc Hdc H Hc. unfold predictor_consistent in H.
+  assert (Hfull : forall y' fac, full_pred cf p x y' fac nobs -> False).
+  { intros y' fac (Hc' & _). rewrite Hc in Hc'. injection Hc' as Hc'. congruence. }
+  assert (Hdtc : forall xu y', dtc_pred cd p x xu y' nobs -> False).
+  { intros xu y' (Hc' & _). rewrite Hc in Hc'. injection Hc' as Hc'. congruence. }
+  destruct g.
+  - destruct H as (_ & _ & y' & _ & Hp). destruct (Hfull _ _ Hp).
+  - destruct H as (_ & _ & y' & _ & Hp). destruct (Hfull _ _ Hp).
+  - destruct lm as [[[m dd] ld]|]; [|destruct H as (y' & _ & Hp); destruct (Hfull _ _ Hp)].
+    destruct H as (H1 & H2 & H3).
+    destruct (is_none Lp) eqn:EL; cbn [negb andb] in H3; [destruct H3 as (y' & _ & Hp); destruct (Hdtc _ _ Hp)|].
+    destruct (Z.eqb_spec pz m) as [->|]; [|destruct H3 as (y' & _ & Hp); destruct (Hdtc _ _ Hp)].
+    exists m, dd, ld. split; [reflexivity|]. split; [auto|]. split; [reflexivity|]. split; [intros ->; discriminate|].
+    split; [exact H3|]. split; assumption.
+  - destruct lm as [[[m dd] ld]|]; [|destruct H as (y' & _ & Hp); destruct (Hfull _ _ Hp)].
+    destruct H as (_ & _ & y' & _ & Hp). destruct (Hdtc _ _ Hp).
+  - destruct lm as [[[m dd] ld]|]; [|destruct H as (y' & _ & Hp); destruct (Hfull _ _ Hp)].
+    destruct H as (H1 & H2 & H3).
+    destruct (is_none Lp) eqn:EL; cbn [negb andb] in H3; [destruct H3 as (y' & _ & Hp); destruct (Hdtc _ _ Hp)|].
+    destruct (Z.eqb_spec pz m) as [->|]; [|destruct H3 as (y' & _ & Hp); destruct (Hfull _ _ Hp) || destruct (Hdtc _ _ Hp)].
+    exists m, dd, ld. split; [reflexivity|]. split; [auto|]. split; [reflexivity|]. split; [intros ->; discriminate|].
+    split; [exact H3|]. split; assumption.
+Qed.
+
+(* which family an accepted type gets (ties to C15's family_of): sparse types have inducing points
+   (validate_params, C15), sparse_cholesky / fixed get a landmark factor and one latent entry per landmark *)
+Definition family_class (cf cc cd : string) (g : gpt) : string :=
+  match g with FULL | FULL_NYSTROEM => cf | SPARSE_CHOLESKY | FIXED => cc | SPARSE_NYSTROEM => cd end.
+
+Theorem family_for_type cf cc cd ylink x m dd ld cov jit g y z pz Lp L p nobs :
+  predictor_consistent cf cc cd ylink x (Some (m, dd, ld)) cov jit g y z pz Lp L p nobs ->
+  (g = SPARSE_CHOLESKY \/ g = FIXED -> Lp <> VNone /\ pz = m) ->
+  obj_class p = Some (family_class cf cc cd g).
+Proof.
+  intros H Hs. unfold predictor_consistent in H. destruct g; cbn [family_class].
+  - destruct H as (_ & _ & y' & _ & Hp & _). exact Hp.
+  - destruct H as (_ & _ & y' & _ & Hp & _). exact Hp.
+  - destruct (Hs (or_introl eq_refl)) as [HL ->]. destruct H as (_ & _ & H).
+    rewrite Z.eqb_refl in H. destruct Lp; try congruence; exact (proj1 H).
+  - destruct H as (_ & _ & y' & _ & Hp & _). exact Hp.
+  - destruct (Hs (or_intror eq_refl)) as [HL ->]. destruct H as (_ & _ & H).
+    rewrite Z.eqb_refl in H. destruct Lp; try congruence; exact (proj1 H).
+Qed.
+
+(* ------------------------------------------------------------------ n_obs *)
+(* the number a recorded predictor reports as self.n_obs: an attribute stored after construction wins, otherwise
+   what the constructor base stores (the generated c02_n_obs functions), read from the constructor argument it names *)
+Definition lookup_class (c : string) : option (string * string) :=
+  option_map snd (find (fun r => String.eqb (fst r) c) c02_class_table).
+
+Definition predictor_n_obs (p : val) : res val :=
+  match obj_class p with
+  | None => Err AttributeError
+  | Some c =>
+    match lookup_class c with
+    | Some (base, _) =>
+        let arg (names : list string) := match names with [a] => obj_field p a | _ => None end in
+        if String.eqb base "_FullConditional" then
+          match obj_field p "n_obs", arg c02_n_obs_args_FullConditional with
+          | Some v, _ => Ok v | None, Some a => c02_n_obs_FullConditional a | _, _ => Err AttributeError end
+        else if String.eqb base "_LandmarksConditional" then
+          match obj_field p "n_obs", arg c02_n_obs_args_LandmarksConditional with
+          | Some v, _ => Ok v | None, Some a => c02_n_obs_LandmarksConditional a | _, _ => Err AttributeError end
+        else if String.eqb base "_LandmarksConditionalCholesky" then
+          match arg c02_n_obs_args_LandmarksConditionalCholesky with
+          | Some a => c02_n_obs_LandmarksConditionalCholesky a | None => Err AttributeError end
+        else Err AttributeError
+    | None => Err AttributeError
+    end
+  end.
 
 End Dispatch.
